@@ -260,9 +260,10 @@ def sigma_filter(filename, region, step_size, box_size, shape, domask,
     # wait for all to complete
     if _verif_point is not None:
         _verif_point("wait1", region)
-    i = barrier.wait()
-    if i == 0:
-        barrier.reset()
+    # the barrier is cyclic: it re-arms itself when the last party leaves.
+    # (calling reset() here breaks the barrier for stripes that have already
+    # arrived at the next wait)
+    barrier.wait()
 
     if _verif_point is not None:
         _verif_point("bkg_read", region)
@@ -295,9 +296,7 @@ def sigma_filter(filename, region, step_size, box_size, shape, domask,
         # wait for all to complete
         if _verif_point is not None:
             _verif_point("wait2", region)
-        i = barrier.wait()
-        if i == 0:
-            barrier.reset()
+        barrier.wait()
 
         if _verif_point is not None:
             _verif_point("mask_write", region)
